@@ -161,6 +161,15 @@ func checkC08(r *run, c *PayGenericCase) (CaseInfo, error) {
 		})
 		out := prim.Payload(call.MTU, in)
 		snap := deepCopy(out)
+		// fragments are the caller's, capacity included (append writes there): that must not reach another fragment
+		for _, f := range out {
+			for k, full := len(f), f[:cap(f)]; k < len(full); k++ {
+				full[k] ^= 0xFF
+			}
+		}
+		if !sameFrags(out, snap) {
+			return ci, failf("%s call %d: writing into the spare capacity of the returned fragments changed other fragments", c.Payloader, i)
+		}
 		if ar != nil && !ar.intact() {
 			return ci, failf("%s: the caller's buffer (or the memory around it) was modified", what)
 		}
@@ -377,6 +386,17 @@ func genPayGenericCase(t *rapid.T) *PayGenericCase {
 			case strings.HasPrefix(c.Payloader, "h265"):
 				body[0], body[1] = 0x26, 0x01
 				call.Data = append([]byte{0, 0, 0, 1}, body...)
+				if genBool(t, "jumbomanyunits") {
+					// several large units that each fit one packet: together more than 64 KiB pending for aggregation
+					call.MTU = uint16(rapid.SampledFrom([]int{46000, 65535}).Draw(t, "jumbomanymtu"))
+					call.Data = nil
+					for u, k := 0, rapid.IntRange(2, 4).Draw(t, "jumbomanyk"); u < k; u++ {
+						l := rapid.IntRange(20000, 45000).Draw(t, "jumbomanylen")
+						unit := clone(body[:l])
+						unit[0], unit[1] = rapid.SampledFrom([]uint8{0x26, 0x02, 0x40}).Draw(t, "jumbomanyhdr"), 0x01
+						call.Data = append(append(call.Data, 0, 0, 1), unit...)
+					}
+				}
 			case c.Payloader == "av1":
 				body[0] = rapid.SampledFrom([]uint8{0x30, 0x34}).Draw(t, "jumboobu")
 				call.Data = body
@@ -397,7 +417,7 @@ func genPayGenericCase(t *rapid.T) *PayGenericCase {
 	return c
 }
 
-const ruleC08 = "rapid draws a payloader (G711, G722, Opus, H264 +-STAP-A, H265 x {AddDONL} x {SkipAggregation}, VP8 +-picture id, VP9 flexible/non-flexible, AV1) and 1-4 calls on one instance (VP8 with picture ids and VP9: one case in four first sends 1-32768 one-byte frames so that the running picture id sits at 125-129 or at the 15-bit wrap): MTU 0-65535 biased to 0-16/100/1200/65535, input nil, empty, random, or grammar-seeded (Annex-B NAL sequences incl. SPS/PPS/AUD and trailing start codes, OBU streams with extension bytes and lying size fields, VP9 frames with generated headers) optionally mutated, and (one call in 80) inputs of 65534-131072 bytes incl. a jumbo SPS/PPS followed by a slice; inputs sit in an arena with guard bytes and spare capacity. Oracle: no panic, every fragment <= MTU (Opus exempt) and non-empty for non-empty input, arena untouched, and the twin/scribble relation: after each call the input arena is overwritten, fragments returned earlier must not change and every later output must equal that of a twin instance fed pristine copies. Non-trivial = a call returned >=1 fragment; distinct = FNV-64 of the JSON case"
+const ruleC08 = "rapid draws a payloader (G711, G722, Opus, H264 +-STAP-A, H265 x {AddDONL} x {SkipAggregation}, VP8 +-picture id, VP9 flexible/non-flexible, AV1) and 1-4 calls on one instance (VP8 with picture ids and VP9: one case in four first sends 1-32768 one-byte frames so that the running picture id sits at 125-129 or at the 15-bit wrap): MTU 0-65535 biased to 0-16/100/1200/65535, input nil, empty, random, or grammar-seeded (Annex-B NAL sequences incl. SPS/PPS/AUD and trailing start codes, OBU streams with extension bytes and lying size fields, VP9 frames with generated headers) optionally mutated, and (one call in 80) inputs of 65534-131072 bytes incl. a jumbo SPS/PPS followed by a slice, or (H265) 2-4 units of 20000-45000 bytes that each fit the MTU; inputs sit in an arena with guard bytes and spare capacity. Oracle: no panic, every fragment <= MTU (Opus exempt) and non-empty for non-empty input, arena untouched, fragments independent of each other's spare capacity, and the twin/scribble relation: after each call the input arena is overwritten, fragments returned earlier must not change and every later output must equal that of a twin instance fed pristine copies. Non-trivial = a call returned >=1 fragment; distinct = FNV-64 of the JSON case"
 
 func TestC08(t *testing.T) {
 	r := begin(t, "C08", "exploration", ruleC08)
